@@ -102,6 +102,14 @@ impl Topo {
     /// a 2-cycle over the *same* edge is excluded but over two parallel edges is
     /// included, and each undirected cycle appears in both orientations (harmless).
     pub fn simple_cycles(&self) -> Vec<(usize, Vec<usize>)> {
+        self.simple_cycles_opt(true)
+    }
+    /// arc semantics: an undirected edge is two arcs, so u->v->u over the same edge is a closed walk
+    /// (this is what every shortest-path algorithm sees through IntoEdges)
+    pub fn simple_cycles_arcs(&self) -> Vec<(usize, Vec<usize>)> {
+        self.simple_cycles_opt(false)
+    }
+    fn simple_cycles_opt(&self, exclude_same_edge: bool) -> Vec<(usize, Vec<usize>)> {
         let arcs = self.arcs();
         let mut out = vec![];
         for root in 0..self.n {
@@ -136,7 +144,7 @@ impl Topo {
                 }
                 vis[u] = false;
             }
-            go(root, root, &arcs, &mut vis, &mut cur, &mut out, self.directed);
+            go(root, root, &arcs, &mut vis, &mut cur, &mut out, self.directed || !exclude_same_edge);
         }
         out
     }
